@@ -116,6 +116,41 @@ C from_text(const std::string &s) {
   c.io(r);
   return c;
 }
+// ---------------------------------------------------------------- twin prelude
+// A "twin" of a case has the same structure (sizes, windows, orders, operation codes) but other grid points. Running the
+// check on the twin FIRST - all its objects die before the real case is built - gives every harness the history
+// "the same template instantiations were used a moment ago on another grid of equal size, which is gone now": state
+// that the library keeps across calls (keyed by sizes, interval indices or raw addresses, which the allocator hands out
+// again at once in the zero-quarantine process) then meets the real case. The twin's own verdict is ignored.
+template <class S, class = void>
+struct TwinHook {
+  static void apply(S &) {}
+};
+struct Twinner {
+  void operator()(const char *, int64_t &) {}
+  void operator()(const char *, std::vector<int64_t> &) {}
+  template <class S>
+  auto operator()(const char *, S &s) -> decltype(s.io(*this), void()) {
+    TwinHook<S>::apply(s);
+    s.io(*this);
+  }
+  template <class S>
+  auto operator()(const char *, std::vector<S> &v) -> decltype(v[0].io(*this), void()) {
+    for (auto &s : v) {
+      TwinHook<S>::apply(s);
+      s.io(*this);
+    }
+  }
+};
+template <class C>
+bool make_twin(C &c) {
+  std::string before = to_text(c);
+  Twinner t;
+  TwinHook<C>::apply(c);
+  c.io(t);
+  return to_text(c) != before;
+}
+
 inline uint64_t fnv(const std::string &s) {
   uint64_t h = 1469598103934665603ull;
   for (unsigned char ch : s) {
@@ -199,6 +234,7 @@ struct Ctx {
   std::string out_path, hashes_path, target = "?";
   std::vector<Sub> subs;
   int shard = 0;  // enumerated sub-checks run in shard 0 only
+  bool no_twin = false;    // harness opts out of the twin prelude (expensive cases)
   bool no_shrink = false;  // schedule-dependent checks: a failing case need not fail again, shrinking would only burn time
   std::map<std::string, double> metrics;  // named maxima (calibration numbers), merged by max in the driver
   // crash bookkeeping
@@ -258,11 +294,23 @@ void add_sub(const std::string &name, int cases, rc::Gen<Case> gen, F fn) {
   Sub s;
   s.name = name;
   s.cases = cases;
-  s.replay = [fn](const std::string &text, Obs &o) {
+  auto with_twin = [fn](const Case &c, const std::string &text, Obs &o) {
+    if (ctx().no_twin || fnv(text) % 3 != 0) return;
+    Case tw = c;
+    if (!make_twin(tw)) return;
+    o.cls("prelude:twin-case-first");
+    Obs ignored;
+    try {
+      fn(tw, ignored);
+    } catch (...) {
+    }
+  };
+  s.replay = [fn, with_twin](const std::string &text, Obs &o) {
     Case c = from_text<Case>(text);
+    with_twin(c, text, o);
     fn(c, o);
   };
-  s.run = [gen, fn](Sub &self, uint64_t seed, double scale, int max_size) {
+  s.run = [gen, fn, with_twin](Sub &self, uint64_t seed, double scale, int max_size) {
     rc::detail::TestParams params;
     params.seed = seed ^ fnv(self.name);
     params.maxSuccess = std::max(1, (int)(self.cases * scale));
@@ -275,7 +323,7 @@ void add_sub(const std::string &name, int cases, rc::Gen<Case> gen, F fn) {
     Sub *sp = &self;
     auto t0 = std::chrono::steady_clock::now();
     auto result = rc::detail::checkTestable(
-        [gen, fn, sp]() {
+        [gen, fn, sp, with_twin]() {
           Case c = *gen;
           std::string text = to_text(c);
           Ctx &cx = ctx();
@@ -283,6 +331,7 @@ void add_sub(const std::string &name, int cases, rc::Gen<Case> gen, F fn) {
           cx.cur_case = text;
           Obs o;
           try {
+            with_twin(c, text, o);
             fn(c, o);
           } catch (const std::exception &e) {
             o.fail(std::string("unexpected exception escaped the check: ") + e.what());
